@@ -375,7 +375,7 @@ func (r *Report) print(verbose bool) {
 			for _, n := range u.Notes {
 				fmt.Printf("     note: %s\n", n)
 			}
-			if u.Canary {
+			if u.Canary && os.Getenv("GOVC_DEBUG_CANARY") != "" {
 				for _, o := range u.Obls {
 					fmt.Printf("     canary obligation %s: %s (%s)\n", o.Name, o.Status, o.Solver)
 				}
